@@ -89,8 +89,10 @@ def value (b : BufIt) : BufVal :=
     | some p => .str (cstr (b.data.drop p))
     | none => .vec ((b.data.drop b.off).take b.len)
 
-/-- `bufferClone` (fix in /repo: the string pointer of the copy follows the copied position) -/
-def clone (b : BufIt) : BufIt := b
+/-- `bufferClone`: the array reference, offset and length are copied; the string pointer of the copy is set
+    from the copied position when the original has one (fix in /repo: it used to point into the original) -/
+def clone (b : BufIt) : BufIt :=
+  { b with str := if b.str.isSome ∧ b.hasBuf then some b.off else none }
 
 end BufIt
 
@@ -192,8 +194,8 @@ def rangeFromIter (src : Src) : Src × Option Gen :=
     match s1.consumeD with
     | (s2, .err _) => (s2, none)
     | (s2, .ok step) =>
-      (s2, if ¬ (0 < step) ∨ mx - mn < step ∨ step < (mx - mn) * (1 / 1000000) then none
-           else some (.linear mn step (wrap32 (((mx - mn) / step).floor.toNat + 1)) 0))
+      (s2, if ¬ (0 < step) ∨ (mx - mn) * (1 + rangeTol) < step ∨ step < (mx - mn) * (1 / 1000000) then none
+           else some (.linear mn step (wrap32 (rangeSteps mn mx step + 1)) 0))
 
 /-- `_mpt_iterator_factor(val)`, `val` an iterator: count, then optional base, factor, start value; a missing
     factor defaults to the base (fix in /repo: with count and base given the factor used to stay 10) -/
